@@ -15,8 +15,8 @@ import bisect
 from .langs import LANGS, lexer_for
 
 MARKER_VARIANTS = {
-    "#": ["# nocl", "#nocl", "#  NOCL", "# NoCl: generated code", "# nocl because reasons"],
-    "//": ["// nocl", "//nocl", "/* nocl */", "// NOCL", "/* NoCl generated */", "//  nocl: legacy"],
+    "#": ["# nocl", "#nocl", "#  NOCL", "# NoCl: generated code", "# nocl because reasons", "#      nocl", "#\tnocl", "#        NOCL see above"],
+    "//": ["// nocl", "//nocl", "/* nocl */", "// NOCL", "/* NoCl generated */", "//  nocl: legacy", "//      nocl", "/*       nocl */", "//\t\tnocl", "/*nocl*/"],
 }
 DECOY_VARIANTS = {
     # the marker must follow the comment LEADER (#, //, /*) directly: a second leader character in between makes
